@@ -44,15 +44,19 @@ def layers_of(read):
     o = read["opts"]
     if o.get("parsing_dirs"):
         return list(o["parsing_dirs"])
-    root = "$ROOT" if o.get("root_prefix") else ""
     proj = read.get("project")
     sub = read.get("usr_subdir") or ""
-    if read.get("name"):
+    if not read.get("name"):
+        proj = None      # drop-ins only: the project takes the place of the name, layers have no project part
+    if o.get("root_prefix"):
+        root = "$ROOT"
         if proj is not None:
             return [norm("%s/%s/%s" % (root, sub, proj)), norm("%s/run/%s" % (root, proj)), norm("%s/etc/%s" % (root, proj))]
         return [norm(root + sub), norm(root + "/run"), norm(root + "/etc")]
-    # drop-ins only: the project takes the place of the name, layers have no project part
-    return [norm(root + sub), norm(root + "/run"), norm(root + "/etc")]
+    # no root prefix: the vendor directory is taken as given, /run and /etc are the real ones
+    if proj is not None:
+        return [norm("%s/%s" % (sub, proj)), norm("/run/%s" % proj), norm("/etc/%s" % proj)]
+    return [norm(sub), "/run", "/etc"]
 
 
 def name_of(read):
@@ -72,13 +76,21 @@ def postfixes_of(read):
     return None
 
 
+def rel(read, p):
+    """spelling of a sandbox path handed to the library: relative to the working directory $ROOT when the
+    world asks for relative names"""
+    if p is not None and read.get("rel") and p.startswith("$ROOT/"):
+        return p[len("$ROOT/"):]
+    return p
+
+
 def option_string(read):
     o = read["opts"]
     items = []
     if o.get("root_prefix"):
-        items.append("ROOT_PREFIX=$ROOT")
+        items.append("ROOT_PREFIX=" + ("." if read.get("rel") else "$ROOT"))
     if o.get("parsing_dirs"):
-        items.append("PARSING_DIRS=" + ":".join(o["parsing_dirs"]))
+        items.append("PARSING_DIRS=" + ":".join(rel(read, d) for d in o["parsing_dirs"]))
     if o.get("config_dirs"):
         items.append("CONFIG_DIRS=" + ":".join(o["config_dirs"]))
     for x in o.get("extra", []):
@@ -113,7 +125,15 @@ def gen_layered_world(rng, i, two_layer=None, want_files=True, small=False, allo
     else:
         read["ep"] = "readConfig"
         r = rng.random()
-        if r < 0.45:
+        if r < 0.08:
+            # no ROOT_PREFIX, no PARSING_DIRS: vendor directory inside the sandbox, the real /run and /etc
+            # hold nothing for this project name
+            read["project"] = "lesim-proj-%d" % rng.randrange(1000)
+            read["usr_subdir"] = rng.pick(["$ROOT/vend", "$ROOT/usr/lib"])
+            if rng.chance(0.25):
+                read["name"] = None
+            nlayers = 3
+        elif r < 0.45:
             read["opts"]["root_prefix"] = True
             read["project"] = rng.pick(["proj", None, "p2"])
             read["usr_subdir"] = rng.pick(["/usr/lib", "/usr/etc", "/usr/share/x"])
@@ -129,9 +149,12 @@ def gen_layered_world(rng, i, two_layer=None, want_files=True, small=False, allo
             read["usr_subdir"] = rng.pick(["/usr/lib", None])
             if read["project"] is not None and rng.chance(0.15):
                 read["name"] = None
+        if rng.chance(0.15):
+            # parsing options that must not change anything for files that define every key once
+            read["opts"]["extra"] = [rng.pick(["JOIN_SAME_ENTRIES=1", "JOIN_SAME_ENTRIES=1", "PYTHON_STYLE=1"])]
         if rng.chance(0.25):
             read["opts"]["config_dirs"] = rng.pick([[".d"], [".conf.d", ".d"], ["/conf.d"], [".d", "/conf.d"], [".dropins"]])
-        if rng.chance(0.25):
+        if rng.chance(0.25) and (read["opts"].get("parsing_dirs") or read["opts"].get("root_prefix")):
             read["opts"]["root_prefix"] = True
     if rng.chance(0.3):
         read["global_dirs"] = rng.pick([[".d"], [".conf.d", ".d"], ["/conf.d", ".d"], [".x.d"], ["/conf.d"]])
@@ -157,8 +180,8 @@ def gen_layered_world(rng, i, two_layer=None, want_files=True, small=False, allo
     dropin_only = (not read["ep"].startswith("readDirs")) and not read.get("name")
     for li, layer in enumerate(layers):
         st = MAIN_STATES[(pat >> (2 * li)) & 3] if li < 3 else rng.pick(MAIN_STATES)
-        if dropin_only:
-            st = "absent"     # no main file is defined in this mode
+        if dropin_only or not layer.startswith("$ROOT"):
+            st = "absent"     # no main file is defined in this mode / layer outside the sandbox
         p = norm("%s/%s%s" % (layer, eff_name, suf))
         if st == "regular":
             fid += 1
@@ -172,6 +195,8 @@ def gen_layered_world(rng, i, two_layer=None, want_files=True, small=False, allo
     pool = list(NAME_POOL)
     for li, layer in enumerate(layers):
         used_here = set()
+        if not layer.startswith("$ROOT"):
+            continue
         for pf in pfs_eff:
             d = norm("%s/%s%s" % (layer, eff_name, pf))
             r = rng.random()
@@ -202,7 +227,12 @@ def gen_layered_world(rng, i, two_layer=None, want_files=True, small=False, allo
     # drop a path clash: a node that is both a file and the parent of another node
     paths = {n["p"] for n in nodes}
     nodes = [n for n in nodes if not (n["t"] != "d" and any(q.startswith(n["p"] + "/") for q in paths))]
-    return {"kind": "layered", "read": read, "nodes": nodes, "cfg": io_cfg(rng)}
+    cfg = io_cfg(rng)
+    if rng.chance(0.2) and all(l.startswith("$ROOT") for l in layers):
+        # relative names: the run's working directory is $ROOT
+        read["rel"] = True
+        cfg["cwd"] = "$ROOT"
+    return {"kind": "layered", "read": read, "nodes": nodes, "cfg": cfg}
 
 
 def tree_plan(nodes):
@@ -232,9 +262,9 @@ def read_op(read, o=0, cb=None, ep=None, init="null", in_slot=None, faults=None)
     if ep == "readConfig":
         op.update({"op": "readConfig", "in": in_slot, "project": read.get("project"), "usr_subdir": read.get("usr_subdir"), "name": read.get("name")})
     elif ep == "readDirs":
-        op.update({"op": "readDirs", "usr": read.get("usr"), "etc": read.get("etc"), "name": read.get("name")})
+        op.update({"op": "readDirs", "usr": rel(read, read.get("usr")), "etc": rel(read, read.get("etc")), "name": read.get("name")})
     elif ep == "readDirsHistory":
-        op.update({"op": "readDirsHistory", "usr": read.get("usr"), "etc": read.get("etc"), "name": read.get("name")})
+        op.update({"op": "readDirsHistory", "usr": rel(read, read.get("usr")), "etc": rel(read, read.get("etc")), "name": read.get("name")})
     return op
 
 
@@ -250,7 +280,7 @@ def layered_read_ops(read, cb=None, init="null", faults=None, dump_ext=False):
     tagged 'read' and 'dump'; the object/history ends up freed."""
     ops = []
     if read["ep"] == "readFile":
-        op = {"op": "readFile", "o": 0, "path": read["path"], "delim": read["delim"], "comment": read["comment"], "init": init, "tag": "read"}
+        op = {"op": "readFile", "o": 0, "path": rel(read, read["path"]), "delim": read["delim"], "comment": read["comment"], "init": init, "tag": "read"}
         if cb is not None:
             op["cb"] = cb
         if faults:
